@@ -64,13 +64,13 @@ var malformedTimeouts = map[string][]string{
 	// (the gRPC grammar allows at most 8 digits: longer values are malformed whatever their unit)
 	ProtoGRPC:    {"abc", "12x", "S", "-5S", "1 S", "1.5S", "5s", "5h", "12", "1SS", "0x1fS", "１S", "100000000S", "999999999H", "100000000H", "123456789n", "999999999999n"},
 	ProtoConnect: {"abc", "12x", "-5", "1 0", "1.5", "0x10", "1e3", "１"},
-	ProtoREST:    {"abc", "12x", "1.5.2", "1 0", "1,5", "--1", "１"},
+	ProtoREST:    {"abc", "12x", "1.5.2", "1 0", "1,5", "--1", "１", "NaN", "nan"},
 }
 
 var grayTimeouts = map[string][]string{
 	ProtoGRPC:    {"+1S", "099999999S", "000000000001S"}, // leading zeros beyond 8 digits: the value is expressible, the spelling is not
 	ProtoConnect: {"+5", "18446744073710", "20000000000000", "40000000000000", "9223372036855", "30000000000000", "18446744073709552", "10000000000", "99999999999999999999", "00000000001", "9223372036854775807"},
-	ProtoREST:    {"NaN", "Inf", "-1", "-0", "1e3", "1E-3", "0x10", "+5", ".5", "5.", "1_000", "1e400", "0.0000000001", "123456789012345678901234567890"},
+	ProtoREST:    {"Inf", "-1", "-0", "1e3", "1E-3", "0x10", "+5", ".5", "5.", "1_000", "1e400", "0.0000000001", "123456789012345678901234567890"},
 }
 
 func TestC12(t *testing.T) {
